@@ -307,13 +307,17 @@ def rule_uncontrolled(ck):
 
 
 def run(ck):
-    rule_sorts(ck)
-    rule_queue_order(ck)
-    rule_search_direction(ck)
-    rule_round_robin(ck)
-    rule_uncontrolled(ck)
+    ck.attempt(rule_sorts)
+    ck.attempt(rule_queue_order)
+    ck.attempt(rule_search_direction)
+    ck.attempt(rule_round_robin)
+    ck.attempt(rule_uncontrolled)
     # "the largest pilot that is feasible": the feasibility oracle the searches consult lets a constraint row pass only on its mode's
     # own comparison and answers True only after every row (rules of the algorithm-side checker, shared with C06 / C07)
     from .c06 import rule_utils, rule_row_acceptance
-    rule_utils(ck)
-    rule_row_acceptance(ck, rid="C08.R6")
+    ck.attempt(rule_utils)
+    ck.attempt(rule_row_acceptance, rid="C08.R6")
+    # every call allocates on a fresh description of the infrastructure obtained from the interface (no state carried from an
+    # earlier call: trimmed level ladders, stale limits) and on the preprocessed sessions (shared with C07)
+    from .c07 import rule_pipeline
+    ck.attempt(rule_pipeline, rid="C08.R7")
